@@ -441,3 +441,119 @@ func genEdiLong(r *vh.Rng) *Case {
 	}
 	return &Case{Driver: "edi", Decls: ds, Units: us, Release: r.Pick(3), Omit: r.Chance(0.5)}
 }
+
+// genDirected: a long fixedlength2 input in which, at EVERY refill of the reader's 4096-byte
+// buffer, a multi-line envelope has "a non-final line; blank line(s); the next line of the same
+// envelope starting d bytes before the end of what is buffered" (d = 0: exactly at the boundary,
+// d >= 1: straddling it).  The byte offsets are computed while generating: a fixedlength2 line is
+// name(1) id(4) flag(1) padding '\n' followed by the unit's blank lines; bufio refills when a line
+// is not completely buffered and then holds [start of that line, +4096).
+//
+//	variant 0/1  E (target): rows 2 / rows 3
+//	variant 2    E (target): header H, middle lines M, footer T
+//	variant 3/4  G (target) = [ E rows 2 | header/footer (1..1), D (0..2) ]: E leads a group
+func genDirected(r *vh.Rng, driver string, variant int, sweep int) *Case {
+	const bufSize = 4096
+	const F, R, H, M, T, D = 6, 18, 8, 13, 20, 4
+	c := genLong(r, driver, 0, variant)
+	c.Units = nil
+	var us []Unit
+	off, bufEnd := 0, bufSize
+	// emit appends a unit and advances the simulated reader
+	emit := func(name, pad, blank int) {
+		us = append(us, Unit{Name: name, ID: len(us) + 1, Pad: pad, Blank: blank})
+		start, end := off, off+7+pad
+		if end > bufEnd {
+			bufEnd = start + bufSize
+		}
+		off = end
+		for i := 0; i < blank; i++ {
+			if off+1 > bufEnd {
+				bufEnd = off + bufSize
+			}
+			off++
+		}
+	}
+	basePad := 12 + r.Pick(12)
+	emit(F, r.Pick(40), 0)
+	hits := 0
+	for refills := 0; refills < 7 && len(us) < 3000; {
+		// the lines of one envelope
+		var lines []int
+		switch variant {
+		case 0, 3:
+			lines = []int{R, R}
+		case 1:
+			lines = []int{R, R, R}
+		default:
+			lines = []int{H}
+			for i, k := 0, r.Between(0, 2); i < k; i++ {
+				lines = append(lines, M)
+			}
+			lines = append(lines, T)
+		}
+		gap := bufEnd - off
+		if gap > 7+2+7 && gap < len(lines)*7+2+7+60 {
+			// directed: the blank goes after line j (non-final); lines up to j are unpadded except
+			// line j, whose padding puts the start of line j+1 at bufEnd - d
+			j := (sweep + hits) % (len(lines) - 1)
+			d := (sweep/2 + hits) % 7
+			nblank := 1 + (sweep+hits)%2
+			need := bufEnd - d - nblank - off - 7*(j+1)
+			if need >= 0 {
+				for i := 0; i < j; i++ {
+					emit(lines[i], 0, 0)
+				}
+				emit(lines[j], need, nblank)
+				before := bufEnd
+				for i := j + 1; i < len(lines); i++ {
+					emit(lines[i], basePad, 0)
+				}
+				if bufEnd != before {
+					refills++
+					hits++
+				}
+				if variant >= 3 {
+					for i, k := 0, r.Pick(3); i < k; i++ {
+						emit(D, basePad, 0)
+					}
+				}
+				continue
+			}
+		}
+		before := bufEnd
+		for i, n := range lines {
+			blank := 0
+			if i < len(lines)-1 && r.Chance(0.1) {
+				blank = 1
+			}
+			emit(n, basePad+r.Pick(3), blank)
+		}
+		if variant >= 3 {
+			for i, k := 0, r.Pick(3); i < k; i++ {
+				emit(D, basePad, 0)
+			}
+		}
+		if bufEnd != before {
+			refills++ // an undirected refill (the gap did not allow the placement)
+		}
+	}
+	// a few more envelopes after the last refill
+	for e := 0; e < 5; e++ {
+		switch variant {
+		case 0, 3:
+			emit(R, basePad, 0)
+			emit(R, basePad, 0)
+		case 1:
+			emit(R, basePad, 0)
+			emit(R, basePad, 0)
+			emit(R, basePad, 0)
+		default:
+			emit(H, basePad, 0)
+			emit(T, basePad, 0)
+		}
+	}
+	c.Decls = c.Decls[:2] // filler + envelope (no trailer)
+	c.Units = us
+	return c
+}
